@@ -40,7 +40,13 @@ void buildFaultObject(ezc3d::c3d& c, int kind) {
         case 4: fillData(c, 20, 4, 5, 60); break;                                        // ~24 kB of data
         case 5: fillData(c, 100, 10, 10, 150); break;                                    // ~300 kB of data
         case 6: fillData(c, 80, 0, 0, 40); break;                                        // many points per frame, no analogs (51 kB)
-        default: fillData(c, 255, 0, 0, 3); break;                                       // 255 points per frame, 3 frames (12 kB)
+        case 7: fillData(c, 255, 0, 0, 3); break;                                        // 255 points per frame, 3 frames (12 kB)
+        default: { // parameter RECORDS larger than a stream buffer: 200 points with 60-character names (12 kB of labels), a 20 kB float table
+            { Param r("RATE"); r.set(std::vector<float>(1, 100.f)); c.parameter("POINT", r); }
+            for (int i = 0; i < 200; ++i) c.point("M" + std::to_string(i) + "_" + std::string(54, 'n'));
+            { Param t("TABLE", "twenty kilobytes"); std::vector<size_t> dm; dm.push_back(250); dm.push_back(20); t.set(std::vector<float>(5000, 0.75f), dm); c.parameter("BIG", t); }
+            ezc3d::DataNS::Frame fr; ezc3d::DataNS::Points3dNS::Points pts; for (int i = 0; i < 200; ++i) { ezc3d::DataNS::Points3dNS::Point p; p.name("M" + std::to_string(i) + "_" + std::string(54, 'n')); p.x(0.5f * i); pts.point(p); } fr.add(pts); c.frame(fr); c.frame(fr);
+            break; }
     }
 }
 
@@ -53,6 +59,8 @@ void runFaults(const Opts& o, long idx, CaseLog& log) {
     signal(SIGXFSZ, SIG_IGN);
     ezc3d::c3d c; buildFaultObject(c, kind);
     char refp[700], tp[700]; snprintf(refp, sizeof refp, "%s/ref_%ld.c3d", o.out.c_str(), idx); snprintf(tp, sizeof tp, "%s/target_%ld.c3d", o.out.c_str(), idx);
+    // every other slice names its destination the short way: a bare file name relative to the working directory (no directory part)
+    if (slice % 2 == 1 && chdir(o.out.c_str()) == 0) { snprintf(tp, sizeof tp, "target_%ld.c3d", idx); log.line("CNT dest_named_by_bare_relative_file_name 1"); }
     { Outcome so; VF_TRY(so, c.write(refp)); if (so.threw) { log.viol("C15", "false_refusal/no_fault", "reference save threw " + so.cls); return; } }
     std::string ref = readFileBytes(refp); long full = (long)ref.size();
     long paramBlocks = (unsigned char)ref[512 + 2]; long paramEnd = 512 + 512 * paramBlocks;
